@@ -88,11 +88,13 @@ class C17(RecorderProp):
                    'OpB': {'params': {'rate': rng.choice([[1, 8], [1, 2]]), 'ignore': True, 'skipped': False, 'copy': False},
                            'classLevel': False, 'hasExtractor': False},
                    'OpC': {'params': {'rate': [3, 2], 'ignore': False, 'skipped': rng.random() < 0.5, 'copy': False},
-                           'classLevel': False, 'hasExtractor': False}}
+                           'classLevel': False, 'hasExtractor': False},
+                   # a subclass of a configured class with NO parameters of its own: the documented defaults apply to it
+                   'OpD': {'params': None, 'classLevel': False, 'hasExtractor': False, 'base': rng.choice(['OpA', 'OpB', 'OpC'])}}
         site = {'kind': 'in', 'alias': 'in0', 'flavor': 'instance', 'capture': 'all', 'resolver': None, 'nargs': 1,
                 'kwnames': [], 'handler': '', 'runOriginal': False, 'substitute': None, 'fallbacks': None,
                 'body': [{'op': 'ret', 'e': {'v': 'a0'}}]}
-        plan = [(rng.choice(['OpA', 'OpA', 'OpB', 'OpC']), rng.random() < 0.08, rng.random() < 0.05) for _ in range(n)]
+        plan = [(rng.choice(['OpA', 'OpA', 'OpB', 'OpC', 'OpD']), rng.random() < 0.08, rng.random() < 0.05) for _ in range(n)]
 
         def build(variant):
             r2 = random.Random(variant)
@@ -116,7 +118,9 @@ class C17(RecorderProp):
 
     def s3_case(self, rng):
         return {'kind': 's3sample', 'ratios': [rng.choice([[0, 1], [1, 4], [1, 2], [1, 1], [3, 2], None]) for _ in range(8)],
-                'draws': [rng.choice([[0, 1], [1, 4], [1, 2], [3, 4], [15, 16]]) for _ in range(8)]}
+                'draws': [rng.choice([[0, 1], [1, 4], [1, 2], [3, 4], [15, 16]]) for _ in range(8)],
+                # lookups (ordered / random order) through the same cassette object between the saves
+                'lookups': [rng.choice([None, None, 'ordered', 'random', 'random']) for _ in range(8)]}
 
     # -- S3 storage-level sampling ------------------------------------------------------------------------------
     def run_impl(self, case):
@@ -141,9 +145,16 @@ class C17(RecorderProp):
             def random(self_inner):
                 used.append(1)
                 return float(current['d'][0]) / float(current['d'][1])
+
+            def choice(self_inner, seq):          # (any other use of the sampling generator consumes its stream as well)
+                used.append(1)
+                return seq[0]
+
+            def shuffle(self_inner, seq):
+                used.append(1)
         shared._random = Scripted()
         plain._random = Scripted()
-        for ratio, d in zip(case['ratios'], case['draws']):
+        for i, (ratio, d) in enumerate(zip(case['ratios'], case['draws'])):
             current['d'] = d
             c = plain if ratio is None else shared
             rec = c.create_new_recording('Op')
@@ -151,7 +162,16 @@ class C17(RecorderProp):
             del used[:]
             before = len(fake_s3.store('b17').log)
             c.save_recording(rec)
-            out.append({'stored': len(fake_s3.store('b17').log) > before, 'draws': len(used)})
+            row = {'stored': len(fake_s3.store('b17').log) > before, 'draws': len(used)}
+            how = (case.get('lookups') or [None] * 8)[i]
+            if how:
+                del used[:]
+                try:
+                    list(c.iter_recording_ids('Op', random_results=(how == 'random')))
+                    row['lookupDraws'] = len(used)
+                except Exception as ex:
+                    row['lookupDraws'] = type(ex).__name__
+            out.append(row)
         return out
 
     def model_requests(self, case):
@@ -213,6 +233,9 @@ class C17(RecorderProp):
             for i, (ratio, d, r) in enumerate(zip(case['ratios'], case['draws'], impl)):
                 want = ratio is None or Fraction(*ratio) >= 1 or Fraction(*d) <= Fraction(*ratio)
                 want_draws = 0 if (ratio is None or Fraction(*ratio) >= 1) else 1
+                if r.get('lookupDraws', 0) != 0:
+                    fails.append('S3 save %d: the %s lookup that followed it consumed %r values of the sampling generator - later '
+                                 'keep / drop decisions would depend on the lookups made' % (i, case['lookups'][i], r['lookupDraws']))
                 if r['stored'] != want or r['draws'] != want_draws:
                     fails.append('S3 save %d: ratio %r draw %r stored=%r draws=%r, the rule gives stored=%r draws=%r'
                                  % (i, ratio, d, r['stored'], r['draws'], want, want_draws))
@@ -236,7 +259,7 @@ class C17(RecorderProp):
         # seeded history: replay the documented rule on the generator's own stream
         gen = random.Random(case['seed'])
         for i, ((cls, force, discard), r) in enumerate(zip(case['plan'], impl)):
-            p = case['classes'][cls]['params']
+            p = case['classes'][cls]['params'] or {'rate': [1, 1], 'ignore': False, 'skipped': False}
             kinds = [k for k, _ in r['log']]
             if p['skipped']:
                 want, nd = 'none', 0
